@@ -4263,11 +4263,15 @@ void SoPlexBase<R>::_untransformUnbounded(SolRational& sol, bool unbounded)
 
    int numOrigCols = numColsRational() - 1;
    int numOrigRows = numRowsRational() - 1;
-   const Rational& tau = sol._primal[numOrigCols];
+
+   // if the auxiliary problem could not be solved (error, limit) the solution vectors may be empty
+   const bool hasAuxSol = (sol._primal.dim() > numOrigCols);
+   const Rational tau = hasAuxSol ? sol._primal[numOrigCols] : _rationalPosone;
 
    // adjust solution and basis
    if(unbounded)
    {
+      assert(hasAuxSol);
       assert(tau >= _rationalPosone);
 
       sol._isPrimalFeasible = false;
@@ -4286,7 +4290,7 @@ void SoPlexBase<R>::_untransformUnbounded(SolRational& sol, bool unbounded)
       _basisStatusCols.reSize(numOrigCols);
       _basisStatusRows.reSize(numOrigRows);
    }
-   else if(boolParam(SoPlexBase<R>::TESTDUALINF) && tau < _rationalFeastol)
+   else if(hasAuxSol && boolParam(SoPlexBase<R>::TESTDUALINF) && tau < _rationalFeastol)
    {
       const Rational& alpha = sol._dual[numOrigRows];
 
